@@ -331,6 +331,13 @@ func (d *clientStreamDownloader) fillSegmentQueue(
 		var invPos int
 		seg, segPos, invPos = findSegmentWithID(pl.MediaSequence, pl.Segments, *d.curSegmentID+1)
 		if seg == nil {
+			if pl.Endlist && *d.curSegmentID+1 == pl.MediaSequence+len(pl.Segments) {
+				// the stream has ended and its last segment has already been downloaded
+				d.segmentQueue.push(nil)
+				<-ctx.Done()
+				return fmt.Errorf("terminated")
+			}
+
 			return fmt.Errorf("next segment not found or not ready yet")
 		}
 
